@@ -49,6 +49,11 @@ def emittedOf (ev : Event) : Action :=
 def doneOf (ev : Event) : Action :=
   { name := ev.name, method := ev.method ++ ".done." ++ ev.tag, payload := .obj ev.payload }
 
+/-- the time an action asks the timer to add (`timer_delay_dispatcher`, installed for the signature
+    `*.elapse`): the payload of an action named `*` with method `elapse` -/
+def elapseOf (a : Action) : Rat :=
+  if a.name = "*" ∧ a.method = "elapse" then (match a.payload with | .num t => t | _ => 0) else 0
+
 /-! ### L4: play -/
 section Play
 variable {σ : Type}
